@@ -70,6 +70,9 @@ func (f *InitializeInstance) Call(s *slip.Scope, args slip.List, depth int) slip
 type defaultInitializeInstanceCaller struct{}
 
 func (defaultInitializeInstanceCaller) Call(s *slip.Scope, args slip.List, depth int) slip.Object {
+	if len(args) < 1 {
+		slip.ErrorPanic(s, depth, "Too few arguments to initialize-instance. At least 1 expected but got 0.")
+	}
 	if fi := slip.FindFunc("shared-initialize", &Pkg); fi != nil {
 		args = append(slip.List{args[0], slip.True}, args[1:]...)
 		_ = fi.Apply(s, args, depth+1)
